@@ -184,6 +184,8 @@ static void reset(void) { NLOG = 0; SEQ = 0; box_drops = arc_clones = arc_drops 
         A("}")
     # ---- calls
     A("int main(void) {")
+    for ri, r in enumerate(roots):
+        A('    printf("SIZEOF root=%d obj=%%zu cont=%%zu\\n", sizeof(struct %s), sizeof(struct %s));' % (ri, r["struct"], r["container"]))
     ncalls = 0
     for wi, w in enumerate(wrappers):
         # which roots does this wrapper apply to?
@@ -235,7 +237,7 @@ static void reset(void) { NLOG = 0; SEQ = 0; box_drops = arc_clones = arc_drops 
                 retcheck = "-1"
             A('        printf("CALL w=%s root=%d known_params=%d nlog=%%d", NLOG);' % (w["name"], ri, 1 if ok else 0))
             A('        for (int i = 0; i < NLOG && i < 4; i++) printf(" [root=%d trait=%d slot=%d cont_ok=%d args_ok=%d seq=%d]", LOG[i].root, LOG[i].trait, LOG[i].slot, LOG[i].cont == (const void *)&obj.container || LOG[i].cont == (const void *)PAYLOAD, LOG[i].args_ok, LOG[i].seq);')
-            A('        printf(" ret_ok=%%d box_drops=%%d arc_clones=%%d arc_drops=%%d clone_seq=%%d drop_first=%%d drop_last=%%d\\n", (int)(%s), box_drops, arc_clones, arc_drops, arc_clone_seq, arc_drop_seq_first, arc_drop_seq_last);' % retcheck)
+            A('        printf(" ret_ok=%%d box_drops=%%d arc_clones=%%d arc_drops=%%d clone_seq=%%d drop_first=%%d drop_last=%%d box_seq=%%d\\n", (int)(%s), box_drops, arc_clones, arc_drops, arc_clone_seq, arc_drop_seq_first, arc_drop_seq_last, box_drop_seq);' % retcheck)
             A("    }")
     A('    printf("DONE calls=%d\\n");' % ncalls)
     A("    return 0;\n}")
